@@ -23,6 +23,8 @@ fn main() {
         ("c15e", Some(p)) => m5::replay(&args, "C15", p),
         ("c15", Some(p)) => m1::replay(&args, p),
         ("c14", None) => m3::run(&args),
+        ("c14e", None) => m5::run_c14e(&args),
+        ("c14e", Some(p)) => m5::replay(&args, "C14", p),
         ("c14", Some(p)) => m3::replay(&args, p),
         ("c01", None) => m5::run_c01(&args),
         ("c01", Some(p)) => m5::replay(&args, "C01", p),
